@@ -513,6 +513,16 @@ def generate(rng, tier):
         for y in R:
             if kind(proto.parse(x)) == kind(proto.parse(y)):
                 yield dict(tag='eqr-universe', lines=['(eq eqr %s %s)' % (x, y)])
+    # eqPinned (the variant of eqR with the ndarray branch as it was before fix F6c: len() of a 0-d array, broadcasting veq, np.vectorize
+    # on a size-0 result) against that version of the code, read from the repository's history: real exceptions, not prose
+    if pinned_eq() is not None:
+        P = [x for x in U if kind(proto.parse(x)) == 'A' and proto.parse(x)[1] in 'ifbU']
+        for x in P:
+            for y in P:
+                yield dict(tag='eqpinned-universe', lines=['(eq eqpinned %s %s)' % (x, y)])
+        for _ in range(400 if tier == 'quick' else 6000):
+            x, y = pinned_pair(rng)
+            yield dict(tag='eqpinned-random', lines=['(eq eqpinned %s %s)' % (x, y), '(eq eqpinned %s %s)' % (y, x)])
     n = 1500 if tier == 'quick' else 40000
     for _ in range(n):
         x, y = rand_pair(rng)
@@ -531,6 +541,54 @@ def generate(rng, tier):
             yield dict(tag='python==', lines=['(eq pyeq %s %s)' % (x, y)])
 
 
+# ---------------------------------------------------------------- the pinned ndarray branch (before fix F6c) as an implementation
+
+_PINNED = {}
+
+
+def pinned_eq():
+    """`eq` of src/pyg_base/_eq.py as it was just before the F6c fix (the commit is looked up in known_findings.d/C14.json): the
+    scalar-vs-container and dict fixes are in, the ndarray branch is the pinned one (len() instead of shape, broadcasting veq).
+    None when that version cannot be read from the repository's history."""
+    if 'eq' not in _PINNED:
+        import json, os, subprocess, types
+        from ..engine import REPO, VERIF
+        _PINNED['eq'] = None
+        try:
+            commit = [k['commit'] for k in json.load(open(os.path.join(VERIF, 'known_findings.d', 'C14.json'))) if k['id'] == 'F6c'][0]
+            src = subprocess.run(['git', '-C', REPO, 'show', '%s^:src/pyg_base/_eq.py' % commit], stdout=subprocess.PIPE,
+                                 stderr=subprocess.DEVNULL, text=True, timeout=30)
+            if src.returncode == 0 and 'def eq(' in src.stdout:
+                mod = types.ModuleType('pyg_base_eq_pinned')
+                exec(compile(src.stdout, 'pinned/_eq.py', 'exec'), mod.__dict__)
+                _PINNED['eq'] = mod.eq
+        except Exception:
+            pass
+    return _PINNED['eq']
+
+
+PIN_SHAPES = [(), (1,), (2,), (2,), (3,), (1, 2), (2, 1), (2, 2), (2, 3), (1, 3), (3, 1), (0,), (0, 2), (2, 0), (0, 3), (0, 5), (1, 2, 2), (2, 1, 2)]
+
+
+def pinned_pair(rng):
+    """two arrays of plain numbers: equal, reshaped, broadcastable onto each other, of another length, 0-d, of size 0"""
+    dtype = rng.choice('iiffb')
+    cell = lambda: rand_num(rng, dtype) if dtype != 'i' else rng.choice([0, 1, 1, 2])
+    sx = rng.choice(PIN_SHAPES)
+    xs = [cell() for _ in range(prod(sx))]
+    r = rng.random()
+    if r < 0.25:
+        sy, ys = sx, list(xs)
+    elif r < 0.6:
+        sy = rng.choice(PIN_SHAPES)
+        base = xs[:sx[-1]] if sx and rng.random() < 0.5 else xs       # a row of x, repeated: what broadcasting compares
+        ys = [(base or [cell()])[i % max(1, len(base))] for i in range(prod(sy))]
+    else:
+        sy = rng.choice(PIN_SHAPES)
+        ys = [cell() for _ in range(prod(sy))]
+    return A(dtype, sx, *xs), A('f' if dtype == 'i' and rng.random() < 0.2 else dtype, sy, *ys)     # ints are exact floats
+
+
 # ---------------------------------------------------------------- implementation runner
 
 def _bool(r):
@@ -546,6 +604,8 @@ def run_line(state, sx):
         return _bool(pyg_base.eq(dec(args[0]), dec(args[1])))
     if op == 'in':
         return _bool(pyg_base.in_(dec(args[0]), dec(args[1])))
+    if op == 'eqpinned':
+        return _bool(pinned_eq()(dec(args[0]), dec(args[1])))
     if op == 'pyeq':
         return _bool(dec(args[0]) == dec(args[1]))
     return 'bad-op'
@@ -588,6 +648,8 @@ def compare(case, i, line, ir, mr):
     sx = proto.parse(line)
     if sx[1] == 'pyeq':
         return ('divergence', 'python == gives %s, the reference function pyEqV %s' % (ir, mr))
+    if sx[1] == 'eqpinned':
+        return ('divergence', 'the ndarray branch as it was before fix F6c gives %s, its model eqPinned %s' % (ir, mr))
     if not ir.startswith('ok B:'):
         return 'eq/in_ must return a boolean and never raise: %s (model: %s)' % (ir, mr)
     if sx[1] in ('eq', 'eqr'):
